@@ -17,6 +17,7 @@ import (
 	"errors"
 	"fmt"
 	"runtime"
+	"runtime/debug"
 	"strings"
 	"sync/atomic"
 	"testing"
@@ -339,7 +340,7 @@ const firstTypeTok, lastTypeTok = 5, 10
 // the 64 bytes of the length-3 byte sweep: every byte the scanner branches on, the letters
 // of the type names, number syntax, blanks, control bytes, and UTF-8 lead/continuation bytes.
 var bytes64 = []byte("SFWLABJUIOENT" + "sfl" + ".\n<>[]\"'\\/*: \t\r" + "0124789x-+" +
-	"\x00\x01\x0b\x0c\x1f\x7f\x80\xa0\xbf\xc2\xc3\xa9\xe2\xef\xf0\xff" + "aer,_3")
+	"\x00\x01\x0b\x0c\x1f\x7f\x80\xa0\xbf\xc2\xc3\xa9\xe2\xef\xf0\xff" + "aber,_3")
 
 // ───────────────────────── the sweep ─────────────────────────
 
@@ -579,6 +580,8 @@ func (s *sweeper) bytesAndExtra(extraTok int) {
 // goroutine cannot be killed; the shard returns and the process exits).
 func runSweep(c *vfw.Ctx, cc *colConv, maxTok, extraTok int) {
 	s := &sweeper{c: c, r: newRunner(), cc: cc, entries: entryList()}
+	// millions of tiny parses: let the heap grow a little instead of collecting every 4 MB
+	defer debug.SetGCPercent(debug.SetGCPercent(1600))
 	done := make(chan struct{})
 	go func() {
 		defer close(done)
@@ -653,6 +656,16 @@ func TestCheck(t *testing.T) {
 		c.Rule("shared state: every package-level var of <repo>/sml (go/ast on the current tree) is an error sentinel, a blank interface assertion or a never-written literal table; N goroutines with their own Parser/Encoder instances over a corpus give the sequential results (also TestRaceSML under -race)")
 		c.Assume("Go runtime and race detector", "runtime.MemStats.TotalAlloc/Mallocs as the deterministic work proxy (wall-clock is a horizon only)",
 			"shared-state scan is syntactic: a literal table aliased into an instance and written through the alias is not seen (left to the -race pass)")
+		{
+			seen := map[byte]bool{}
+			for _, b := range bytes64 {
+				seen[b] = true
+			}
+			if len(bytes64) != 64 || len(seen) != 64 || len(tokens) != 26 {
+				c.HarnessError("alphabets: %d bytes (%d distinct), %d tokens", len(bytes64), len(seen), len(tokens))
+				return
+			}
+		}
 		cc := &colConv{}
 		if c.Replay != nil {
 			var rp replayT
